@@ -55,7 +55,7 @@ func init() {
 		Cfg:        dsim.Config{MaxChaosSteps: 40, MaxStableSteps: 50, Horizon: time.Second},
 		Real:       []string{"cli.EnvelopeArgs.RunUnseal / loadPrivKeys (the CLI path that relies on the key file)", "keypem/keyfile.OpenOrWritePrivKey", "keypem.ParsePrivKeyPem / MarshalPrivKeyPem", "crypto key generation and (un)marshalling", "the real file system (scratch directory)"},
 		Stub:       []string{"crash points are modelled on the file content (any prefix of the last write / empty / missing), not injected inside os.WriteFile: there is no file-system seam in the code"},
-		FaultKinds: []string{"fault:torn-write", "fault:lost-write", "fault:empty-file", "fault:bit-corruption", "fault:garbage", "fault:wrong-pem-type", "fault:pubkey-pem", "fault:path-is-directory", "fault:path-below-file", "fault:symlink-loop", "fault:dangling-symlink", "fault:name-too-long", "fault:write-fails", "fault:permission-denied"},
+		FaultKinds: []string{"fault:torn-write", "fault:lost-write", "fault:empty-file", "fault:bit-corruption", "fault:garbage", "fault:wrong-pem-type", "fault:pubkey-pem", "fault:path-is-directory", "fault:path-below-file", "fault:symlink-loop", "fault:dangling-symlink", "fault:name-too-long", "fault:write-fails", "fault:permission-denied", "fault:malformed-key-body"},
 		Notes:      []string{"no concurrency in this property: the schedule dimension is the order of loads, crashes and file-state faults"},
 	})
 }
@@ -123,7 +123,16 @@ func (w *c39World) load() {
 		w.fail(&dsim.Violation{Property: "C39", Rule: "unusable-key", Witness: "no-peer-id", Detail: perr.Error()})
 		return
 	}
-	if _, serr := key.Sign([]byte("probe")); serr != nil {
+	serr := func() (err error) {
+		defer func() {
+			if r := recover(); r != nil {
+				err = fmt.Errorf("panic: %v", r)
+			}
+		}()
+		_, err = key.Sign([]byte("probe"))
+		return err
+	}()
+	if serr != nil {
 		w.fail(&dsim.Violation{Property: "C39", Rule: "unusable-key", Witness: "cannot-sign", Detail: serr.Error()})
 		return
 	}
@@ -152,6 +161,8 @@ func (w *c39World) load() {
 		if id.String() != w.ident {
 			w.fail(&dsim.Violation{Property: "C39", Rule: "identity-changes-on-reload", Witness: "intact-file", Detail: "an intact key file loaded to a different peer ID"})
 		}
+	case "overlong-key-body":
+		// the loader may reject it or accept it; an accepted key passed the usability checks above
 	case "other-valid-key":
 		// an operator replaced the file by another valid private key: fine
 	default:
@@ -250,6 +261,16 @@ func (w *c39World) Actions(s *dsim.Sim, add func(dsim.Action)) {
 		dat, _ := keypem.MarshalPubKeyPem(pub)
 		_ = os.WriteFile(w.path, dat, 0o600)
 		w.state = "pubkey-pem"
+	})
+	set("overlong-key", "malformed-key-body", 2, func() {
+		// the right PEM header around a well-formed key message whose key material carries
+		// stray trailing bytes (65 or 80 instead of 64): either an error, or a key that works
+		w.reset()
+		std := ed25519.NewKeyFromSeed(make([]byte, 32))
+		extra := []int{1, 16}[t.Draw(2, "extra")]
+		body, _ := (&crypto.PrivateKey{KeyType: crypto.KeyType_Ed25519, Data: append(append([]byte(nil), std...), make([]byte, extra)...)}).MarshalVT()
+		_ = os.WriteFile(w.path, pem.EncodeToMemory(&pem.Block{Type: "LIBP2P PRIVATE KEY", Bytes: body}), 0o600)
+		w.state = "overlong-key-body"
 	})
 	set("is-dir", "path-is-directory", 2, func() { w.reset(); _ = os.Mkdir(w.path, 0o755); w.state = "directory" })
 	set("below-file", "path-below-file", 2, func() {
